@@ -14,7 +14,7 @@ use std::path::PathBuf;
 use std::sync::Arc;
 
 pub fn count(tier: Tier) -> u64 {
-    tier.pick(300, 1500)
+    tier.pick(300, 12000)
 }
 
 pub fn gen(seed: u64, tier: Tier, k: u64) -> Value {
